@@ -43,6 +43,7 @@ type FuncAn struct {
 	atomLoad    map[*Atom]*ssa.UnOp                // load atoms (and lengths of loads) -> the representative load
 	loadSnap    map[*ssa.UnOp]map[string]ssa.Value // struct-typed load -> locations available at the load
 	callSnap    map[*ssa.Call]map[string]ssa.Value // static call -> locations available right before the call
+	callVer     map[*ssa.Call]map[string]string    // static call -> synthetic versions of locations whose content is unknown
 	prods, quos []opRec
 }
 
